@@ -37,7 +37,9 @@ def stage(res):
     ok, out = maclib.build_mac()
     if not ok:
         raise vlib.CheckError("harness mac does not build against /repo (broken correspondence): " + out[-1500:])
-    return vlib.cached("sem", [res.seed, res.tier], compute)
+    import prop_c10
+    # plus the compiled set-pattern stream of C10 (arbitrary match matrices, wildcard pressure, sets of sets)
+    return vlib.cached("sem", [res.seed, res.tier], compute) + prop_c10.macro_cases(res.seed, 240 if res.tier == "quick" else 6000)
 
 
 def exp_stage(res):
